@@ -33,6 +33,10 @@ def TreeObj.splits (o : TreeObj) : List Int := o.enc.getD []
 /-- a structural edit through the `Node` API: the tree object is not told, its stored encoding stays -/
 def TreeObj.edit (o : TreeObj) (t : T) : TreeObj := { o with cur := t }
 
+/-- a change of the rooting state (`is_rooted = …`, `deroot()`, `reroot_at_node/edge/midpoint`, …), possibly together with the
+    re-drawing the call performs: flag and structure change, the tree object's stored encoding — made under the OLD flag — stays -/
+def TreeObj.reroot (o : TreeObj) (r : Option Bool) (t : T) : TreeObj := { o with rooted := r, cur := t }
+
 /-- `false_positives_and_negatives(a, b, is_bipartitions_updated)`; `none` = refused (`taxon_namespace is not`).
     Returns the two tree objects as the call leaves them. -/
 def fpfnCall (updated : Bool) (a b : TreeObj) : Option (Nat × Nat) × TreeObj × TreeObj :=
@@ -55,6 +59,8 @@ def weightedCall (a b : TreeObj) : Option (Option Rat × Option Rat) × TreeObj 
 inductive Ev where
   | editA (t : T)
   | editB (t : T)
+  | rootA (r : Option Bool) (t : T)
+  | rootB (r : Option Bool) (t : T)
   | fpfn (updated : Bool)
   | missing (updated : Bool)
   | weighted
@@ -62,6 +68,8 @@ inductive Ev where
 def step (st : TreeObj × TreeObj) : Ev → TreeObj × TreeObj
   | .editA t => (st.1.edit t, st.2)
   | .editB t => (st.1, st.2.edit t)
+  | .rootA r t => (st.1.reroot r t, st.2)
+  | .rootB r t => (st.1, st.2.reroot r t)
   | .fpfn u => (fpfnCall u st.1 st.2).2
   | .missing u => (missingCall u st.1 st.2).2
   | .weighted => (weightedCall st.1 st.2).2
